@@ -89,6 +89,10 @@ Lemma endfs_script i sc : endfs (script_items i sc) = [].
 Proof. induction sc as [|o r IH]; [reflexivity|]. cbn [script_items map]. rewrite endfs_cons. exact IH. Qed.
 Lemma due_script i sc : due (script_items i sc) = [].
 Proof. induction sc as [|o r IH]; [reflexivity|]. cbn [script_items map]. rewrite due_cons. exact IH. Qed.
+Lemma endfs_errback i l : endfs (errback_items i l) = [].
+Proof. unfold errback_items. destruct (find_cont i l) as [[sc esc|sc f]|]; [apply endfs_script | reflexivity | reflexivity]. Qed.
+Lemma due_errback i l : due (errback_items i l) = [].
+Proof. unfold errback_items. destruct (find_cont i l) as [[sc esc|sc f]|]; [apply due_script | reflexivity | reflexivity]. Qed.
 Lemma ids_cons {A} (i : nat) (a : A) l : ids ((i, a) :: l) = i :: ids l. Proof. reflexivity. Qed.
 Lemma ids_nil {A} : ids (@nil (nat * A)) = []. Proof. reflexivity. Qed.
 
